@@ -324,6 +324,25 @@ func (ex *Exec) checkFrameCancel(st *State, f *Term, pos token.Pos) {
 	ex.emit(st, "frame", ex.srcLabel(st.top().Fn, pos, "cancel"), Or(alts...), pos, top.Spec.Props)
 }
 
+// checkFrameGhostField: an update of a ghost field of object ref (class "T.$f") needs that field of that object
+// in the modifies clause ('modifies *' does not cover ghost state), unless the object is fresh.
+func (ex *Exec) checkFrameGhostField(st *State, class string, ref *Term, pos token.Pos) {
+	top := ex.topFrame(st)
+	if top.Spec == nil || ex.pure != nil || st.Fresh[ref] || top.EntryFull == nil {
+		return
+	}
+	alts := []*Term{Lt(top.EntryFull.Frontier, ref)}
+	for _, m := range top.Mods {
+		if m.anyObj && (m.class == class || classMatches(class, m.class)) {
+			return
+		}
+		if m.ref != nil && (m.class == class || classMatches(class, m.class)) {
+			alts = append(alts, Eq(ref, m.ref))
+		}
+	}
+	ex.emit(st, "frame", ex.srcLabel(st.top().Fn, pos, "store:"+class), Or(alts...), pos, top.Spec.Props)
+}
+
 func (ex *Exec) checkImmutable(st *State, p *PtrV, pos token.Pos) {
 	if p.Root != RObj || len(p.Path) == 0 || p.Path[0].Field < 0 {
 		return
